@@ -105,6 +105,11 @@ def units_den_unit(units, wv):
     return den[-1]
 
 
+def rounded_to(x, d):
+    x = float(x)
+    return abs(x - round(x, d)) <= 1e-9 * max(1.0, abs(x))
+
+
 def check_plate(b, p, key, rng):
     W = b.world
     u = W.units
@@ -121,6 +126,9 @@ def check_plate(b, p, key, rng):
         arr = out[1]
         mult, _ = M.split_unit(uu)
         d = u.precision(uu)
+        if not all(rounded_to(x, d) for x in arr.flatten()):
+            b.V('C10', 'not_rounded', key + ('get_volumes', uu, unit is None),
+                f"{p.name}.get_volumes(unit={unit!r}) = {arr.flatten()[:4].tolist()}... is not rounded to the configured precision of {uu} ({d} decimals)")
         total_exp = F(0)
         for (r, c) in cells:
             mv = mp.well((r, c))
@@ -170,6 +178,8 @@ def check_plate(b, p, key, rng):
     else:
         mult, _ = M.split_unit(unit)
         d = u.precision(unit)
+        if not all(rounded_to(x, d) for x in out[1].flatten()):
+            b.V('C10', 'not_rounded', key + ('get_moles', unit), f"{p.name}.get_moles({sname}, {unit!r}) is not rounded to {d} decimals")
         for (r, c) in cells:
             a = mp.well((r, c)).contents.get(sname, F(0))
             exp = a * ms.per_amount('mol') / mult
